@@ -585,7 +585,7 @@ def judge_files(rec, old_files, new_files, expectations, old_surface, new_surfac
 
 
 def shards(tier: str, seed: int) -> list[dict]:
-    n = 45 if tier == "quick" else 600
+    n = 110 if tier == "quick" else 900
     return [{"count": n, "cli": 1 if tier == "quick" else 6} for _ in range(16)]
 
 
